@@ -117,6 +117,11 @@ def run_history(case):
     """Execute the history on a real list and on the reference; returns
     (finding or None, info)."""
     SimEvent._SimEvent__event_counter = 0
+    for cls in (SubEvent, SubEvent2):
+        # should a subclass have grown a counter of its own, start it afresh
+        # too, so that a run does not depend on earlier runs in this process
+        if "_SimEvent__event_counter" in cls.__dict__:
+            delattr(cls, "_SimEvent__event_counter")
     el = EventListHeap()
     ref = []            # sorted list of events
     all_events = []     # every event ever created
